@@ -1,12 +1,14 @@
 rc_target("c08_thread_sched", flavour="sched", wrap=True)
-plan("C08", [T("c08_thread_sched", 3000, 30000)], min_nt=150,
+# second engine: free-running clients and scheduler thread under ThreadSanitizer (see c17_race / DESIGN 9.4 e)
+rc_target("c08_race", flavour="tsan", race_oracle=True)
+plan("C08", [T("c08_thread_sched", 3000, 30000), T("c08_race", 800, 8000, 3, 8)], min_nt=150,
      rule="client programs x schedules under the controlled scheduler with a virtual clock",
-     technique="property-based testing over (program, schedule) pairs: controlled scheduler (locks, condvars, atomics, clock as decision points), history oracle",
+     technique="property-based testing over (program, schedule) pairs: controlled scheduler (locks, condvars, atomics, clock as decision points), history oracle + the same kind of generated program on free-running threads under ThreadSanitizer (race report or functional oracle)",
      level_text="Generated search over multi-threaded programs and schedules: real library threads are serialised by a scheduler that owns every "
                 "lock / condition-variable / atomic / clock / create / join decision and a virtual clock, so wake-up placement, timer expiry and "
                 "release timing are generated data. Oracle: exactly-once invocation, RUN only on the scheduler thread and not early, CANCELED only "
                 "for cancelled tasks or during a release, final release returns after the thread exited, no leak, no deadlock. Sequential "
-                "consistency only; sampling, not proof.",
+                "consistency only; sampling, not proof. Second engine (*_race target): real parallel threads under ThreadSanitizer, whose happens-before analysis sees unsynchronised accesses that the controlled scheduler cannot (a section without lock calls has no decision point); a report or a functional failure there is a violation, replayed 12 times and reported when it shows twice.",
      assumptions=["sequential consistency; preemption only at intercepted operations (DESIGN 4.4)",
                   "cancel is issued only for tasks that cannot have run yet (far-future tasks of the same client)",
                   "every user of the scheduler holds a reference while using it"])
